@@ -264,8 +264,29 @@ def run(tier, replay=None):
         if not skip:
             mon_ops.append(o); mon_obs.append(r)
     fails = monitor(mon_ops, mon_obs)
+    load_fails = []
+    # bank-file loads: after an accepted load the banks present are exactly those of the file, under their 7-bit identifiers
+    # (independent reading of the version-2 image: 18 header bytes, then 34 bytes per bank: name, LSB, MSB)
+    for i, (o, r) in enumerate(zip(ops, impl)):
+        if o.startswith("loadbank ") and r.startswith("ret=0") and i + 1 < len(ops) and ops[i + 1] == "list":
+            img = bytes.fromhex(o.split()[1])
+            if img[:11] != gen_wopn.M2 or len(img) < 18:
+                continue
+            cm, cp = int.from_bytes(img[13:15], "big"), int.from_bytes(img[15:17], "big")
+            want = set()
+            for b in range(cm + cp):
+                lsb, msb = img[18 + 34 * b + 32], img[18 + 34 * b + 33]
+                want.add("%d:%d:%d" % (1 if b >= cm else 0, msb & 127, lsb & 127))
+            m = re.match(r"keys=(\S*) size=(\d+)", impl[i + 1])
+            got = [k for k in m.group(1).split(",") if k] if m else None
+            if got is None or set(got) != want or len(got) != len(want) or int(m.group(2)) != len(want):
+                st = max(j for j in range(i + 1) if ops[j] == "new")
+                load_fails.append(("after the bank-file load the banks present are %s, the file holds %s" % (impl[i + 1][:120], sorted(want)), st, i + 1))
     for why, st, i in fails[:3]:
         ctx.violate("monitor", "# %s\n# implementation observation at the last op: %s\n%s\n" % (why, mon_obs[i][:200], "\n".join(mon_ops[st:i + 1])))
+    for why, st, i in load_fails[:3]:
+        ctx.violate("monitor", "# %s\n%s\n" % (why, "\n".join(ops[st:i + 1])))
+    fails = fails + load_fails
     if first is not None:
         i = first
         st = max(j for j in range(i + 1) if ops[j] == "new") if "new" in ops[:i + 1] else 0
